@@ -108,11 +108,21 @@ func (a *c16sAuth) Authenticate(ctx context.Context, req *subscriber.SessionRequ
 	return &subscriber.AuthResult{Success: true, SubscriberID: "sub-" + req.MAC.String(), ISPID: "isp", SessionTimeout: a.stimeout[req.MAC.String()]}, nil
 }
 
-type c16sReader struct{ s *simrt.Sim }
+// c16sReader feeds google/uuid (uuid.SetRand): tape-derived bytes, so that the
+// run stays deterministic, with a counter in the tail, so that two sessions
+// never share an id even when the shrinker zeroes the tape.
+type c16sReader struct {
+	s *simrt.Sim
+	n *uint32
+}
 
 func (r c16sReader) Read(b []byte) (int, error) {
 	for i := range b {
 		b[i] = byte(r.s.Choose(simrt.StRand, 256))
+	}
+	if len(b) >= 8 {
+		*r.n++
+		b[len(b)-1], b[len(b)-2], b[len(b)-3] = byte(*r.n), byte(*r.n>>8), byte(*r.n>>16)
 	}
 	return len(b), nil
 }
@@ -197,7 +207,7 @@ func c16GenSubscriber(r *sim.Rand, tier string, cs *sim.Case) {
 
 func c16RunSubscriber(c *sim.Ctx) {
 	cs := c.Case
-	uuid.SetRand(c16sReader{c.S})
+	uuid.SetRand(c16sReader{c.S, new(uint32)})
 	defer uuid.SetRand(nil)
 	idle := time.Duration(cs.Knob("idle_s", 60)) * time.Second
 	if idle < 20*time.Second {
